@@ -233,6 +233,10 @@ theorem cache_consistent' (ops : List (Op α)) (s : St α) (h : CacheOK s) :
     CacheOK (run s ops) ∧ (dtgTime (run s ops)).2 = absT (run s ops) :=
   ⟨cacheOK_run ops s h, dtgTime_eq_abs _ (cacheOK_run ops s h)⟩
 
+theorem filled_cache_stays_valid' (s : St α) (c : List α) (hc : CacheOK s) (h : s.cache = some c) (ops : List (Op α)) :
+    absT (run s ops) = some c :=
+  absT_run ops s c (hc c h)
+
 /-! ### start / end -/
 
 theorem start_end' (s : St α) :
